@@ -6,11 +6,12 @@ From GoMC Require Import Base.Bytes Base.Dec Gen.Consts Model.C01 Model.C02 Proo
 Import ListNotations.
 Open Scope N_scope.
 
-(* the reads of the typed decoder on the document of ANY well-formed tree, followed by anything: the root
+(* the reads of the typed decoder on the document of ANY well-formed tree nested no deeper than the decoder's
+   limit (nest_ok: at most maxNestingDepth + 1 open lists / compounds), followed by anything: the root
    name, the tree itself, and exactly the document consumed (so `unmarshal` is the kind switch `unm` on the
    tree that was written) *)
 Theorem C02_parse : forall f name t rest fuel,
-  wf t -> name_ok name = true -> (length (payload t) < fuel)%nat ->
+  wf t -> nest_ok t -> name_ok name = true -> (length (payload t) < fuel)%nat ->
   run_flat (Decode f (dec_tree fuel)) (doc f name t ++ rest) = FOk (root_name f name, t) rest.
 Proof. exact decode_tree_doc. Qed.
 
@@ -25,48 +26,44 @@ Proof. intros t v tr Hd Hc Ht He. exact (rt_all t Hd Hc v tr Ht He). Qed.
 (* ROUND TRIP, bytes: both formats, value or pointer handed to Marshal, every root name: if Marshal returns
    bytes, they are the document of a well-formed tree, and Unmarshal of exactly these bytes into a fresh
    variable of the same type succeeds, consumes everything, returns the root name (empty in network
-   format) and the value canon t v *)
+   format) and the value canon t v - provided the value is nested no deeper than the decoder's limit (the
+   encoder has none; deeper documents are refused by the decoder since fix e74e260) *)
 Theorem C02_roundtrip : forall f byval name t v bs,
   documented t = true -> covered t = true -> has_type t v = true -> all_bytesb name = true ->
   marshal f byval name t v = MOk bs ->
   exists tr, wf tr /\ bs = doc f name tr /\ tag_id tr = get_tag t v /\
-             unmarshal f t bs = DOk (root_name f name) (canon t v) [].
+             (nest_ok tr -> unmarshal f t bs = DOk (root_name f name) (canon t v) []).
 Proof.
   intros f byval name t v bs Hd Hc Ht Hn Hm. eapply roundtrip_bytes; eauto. now apply rt_all.
 Qed.
 
-(* NO PANIC: Marshal never panics on a value of any type of the universe (interfaces included), whatever the
-   value holds - except the untyped nil handed over by value, which is no value of any type *)
+(* NO PANIC: Marshal never panics on a value of any type of the universe (interfaces included, the untyped
+   nil included since fix 201ce44), whatever the value holds *)
 Theorem C02_no_panic : forall f byval name t v,
-  has_type t v = true -> (byval = true -> t = YIface -> v <> GvIface None) ->
-  marshal f byval name t v <> MPanic.
+  has_type t v = true -> marshal f byval name t v <> MPanic.
 Proof. exact marshal_no_panic. Qed.
-Theorem C02_no_panic_nil_refuted : exists f name, marshal f true name YIface (GvIface None) = MPanic.
-Proof. exists File, []. reflexivity. Qed.
 
-(* CARRIERS at the root, byte level, for every well-formed document followed by anything: RawMessage holds
-   (Type, Data) and Encode writes back exactly the document *)
+(* CARRIERS at the root, byte level, for every well-formed document (nested within the decoder's limit)
+   followed by anything: RawMessage holds (Type, Data) and Encode writes back exactly the document *)
 Theorem C02_carrier_raw : forall f name t rest fuel,
-  wf t -> name_ok name = true -> (length (payload t) < fuel)%nat ->
+  wf t -> nest_ok t -> name_ok name = true -> (length (payload t) < fuel)%nat ->
   exists r, run_flat (Decode f (dec_raw fuel)) (doc f name t ++ rest) = FOk (root_name f name, r) rest /\
             raw_reencode f name r = doc f name t.
 Proof.
-  intros f name t rest fuel W Hn Hf. exists (tag_id t, payload t). split.
+  intros f name t rest fuel W Hd Hn Hf. exists (tag_id t, payload t). split.
   - apply Decode_doc; auto with rb. now apply dec_raw_conforms.
   - apply raw_exact.
 Qed.
-(* dynbt.Value: exact for every document without an empty list carrying an element id other than TAG_End *)
-Theorem C02_carrier_dyn_partial : forall f name t rest fuel,
-  wf t -> name_ok name = true -> (length (payload t) < fuel)%nat -> dyn_exact t = true ->
-  exists d, run_flat (Decode f (dec_dyn fuel)) (doc f name t ++ rest) = FOk (root_name f name, d) rest /\
+(* dynbt.Value (as of fix 64a91ad it keeps the element id of an empty list): the same, for every document *)
+Theorem C02_carrier_dyn : forall f name t rest fuel,
+  wf t -> nest_ok t -> name_ok name = true -> (length (payload t) < fuel)%nat ->
+  exists d, run_flat (Decode f (dec_dyn2 fuel)) (doc f name t ++ rest) = FOk (root_name f name, d) rest /\
             dyn_reencode f name d = doc f name t.
 Proof.
-  intros f name t rest fuel W Hn Hf X. exists (dyn_of t). split.
-  - apply Decode_doc; auto with rb. now apply dec_dyn_conforms.
+  intros f name t rest fuel W Hd Hn Hf. exists (dyn2_of t). split.
+  - apply Decode_doc; auto with rb. now apply ddyn2_conforms.
   - now apply dyn_exact_doc.
 Qed.
-Theorem C02_carrier_dyn_refuted : exists t, wf t /\ dyn_reencode File [] (dyn_of t) <> doc File [] t.
-Proof. exists (TList 3 []). split; [reflexivity|]. vm_compute. discriminate. Qed.
 
 (* ---- non-vacuity: a concrete type with nested structs, names, omitempty, a skipped field, a nil pointer,
    arrays, typed arrays, a map, and both carriers; encoded and decoded by the model *)
@@ -94,17 +91,16 @@ Example C02_ex_roundtrip : exists bs,
     GvStruct [ GvInt (-128); GvInt 0; GvStr []; GvPtr (Some (GvStruct [GvF32 0; GvStr []])); GvList [GvInt 255; GvInt 0];
                GvList [GvList [GvInt (-1); GvInt 2147483647]; GvList []];
                GvMap [([98], GvPtr (Some (GvBool true))); ([97], GvPtr (Some (GvBool false)))];
-               GvRaw (Some (TList 8 [TString [104; 105]])); GvDyn (Some (TList 0 [])) ].
+               GvRaw (Some (TList 8 [TString [104; 105]])); GvDyn (Some (TList 3 [])) ].
 Proof. eexists. repeat split; vm_compute; reflexivity. Qed.
 Definition ex_doc : tag := TCompound [([97], TList 3 []); ([98], TList 8 [TString [104]]); ([], TLongArray [(-1)%Z])].
-Example C02_ex_carrier : wf ex_doc /\ dyn_exact ex_doc = false /\ dyn_exact (dyn_norm ex_doc) = true /\ wf (dyn_norm ex_doc).
-Proof. repeat split; vm_compute; reflexivity. Qed.
+Example C02_ex_carrier : wf ex_doc /\ nest_ok ex_doc /\ nest_ok (TList 8 [TString [104; 105]]) /\
+  dyn_reencode File [114] (dyn2_of ex_doc) = doc File [114] ex_doc.
+Proof. repeat split; vm_compute; try reflexivity; discriminate. Qed.
 
 Print Assumptions C02_parse.
 Print Assumptions C02_roundtrip_tree.
 Print Assumptions C02_roundtrip.
 Print Assumptions C02_no_panic.
-Print Assumptions C02_no_panic_nil_refuted.
 Print Assumptions C02_carrier_raw.
-Print Assumptions C02_carrier_dyn_partial.
-Print Assumptions C02_carrier_dyn_refuted.
+Print Assumptions C02_carrier_dyn.
